@@ -99,6 +99,23 @@ func main() {
 			// CheckBlock with k valid signatures
 			err := h.CheckBlock(block, ps)
 			fmt.Fprintf(w, "C %d %d %d\n", k, n, b2i(err == nil))
+			// the fast-sync variant: only signatures of validators the node already knows are counted, but the threshold
+			// stays that of the block's validator set. Known = exactly the k signers, and known = everybody: the decision
+			// is the same function of (k, n)
+			if k > 0 {
+				onlySigners, everybody := map[string]bool{}, map[string]bool{}
+				for i, p := range ps.Peers {
+					everybody[p.PubKeyString()] = true
+					_ = i
+				}
+				for i := 0; i < k; i++ {
+					onlySigners[prs[i].PubKeyString()] = true
+				}
+				e1 := h.CheckBlockWithTrusted(block, ps, onlySigners)
+				e2 := h.CheckBlockWithTrusted(block, ps, everybody)
+				fmt.Fprintf(w, "C %d %d %d\n", k, n, b2i(e1 == nil))
+				fmt.Fprintf(w, "C %d %d %d\n", k, n, b2i(e2 == nil))
+			}
 			// SetAnchorBlock on a fresh hashgraph state
 			h.AnchorBlock = nil
 			if err := h.SetAnchorBlock(block); err != nil {
